@@ -453,6 +453,10 @@ func TestVerifC11(t *testing.T) {
 				{"run-after-semantic-error", head + "      - run: " + q("echo ${{ github.nosuchprop }} "+e) + "\n", true},
 				{"run-before-semantic-error", head + "      - run: " + q("echo "+e+" ${{ github.nosuchprop }}") + "\n", true},
 				{"github-script", head + "      - uses: actions/github-script@v7\n        with:\n          script: " + q("console.log("+e+")") + "\n", true},
+				{"github-script-key-capitalised", head + "      - uses: actions/github-script@v7\n        with:\n          Script: " + q("console.log("+e+")") + "\n", true},
+				{"github-script-key-upper-other-ref", head + "      - uses: actions/github-script@main\n        with:\n          github-token: t\n          SCRIPT: " + q("console.log("+e+")") + "\n", true},
+				{"github-script-multiline", head + "      - uses: actions/github-script@v7\n        with:\n          script: |\n            console.log(1)\n            console.log(" + e + ")\n", true},
+				{"run-multiline", head + "      - run: |\n          echo 1\n          echo " + e + "\n", true},
 				{"github-script-other-input", head + "      - uses: actions/github-script@v7\n        with:\n          script: x\n          github-token: " + q(e) + "\n", false},
 				{"env", head + "      - run: echo\n        env:\n          V: " + q(e) + "\n", false},
 				{"with-other-action", head + "      - uses: actions/checkout@v4\n        with:\n          ref: " + q(e) + "\n", false},
